@@ -334,6 +334,31 @@ fn main() {
                     _ => "UNKNOWN".to_string(),
                 }
             }
+            // rowser <kind> <a> <b> <c> <column names,..|->: derived SerializeRow against bind markers of type int: OK <value count> <cell bytes hex|-> / ERR
+            "rowser" => {
+                use scylla_cql_core::frame::response::result::{ColumnSpec, TableSpec};
+                use scylla_cql_core::serialize::row::{RowSerializationContext, SerializeRow};
+                use scylla_cql_core::serialize::RowWriter;
+                use vk_core::c16_types::*;
+                let (x, y, z) = (a[2].parse::<i32>().unwrap(), a[3].parse::<i32>().unwrap(), a[4].parse::<i32>().unwrap());
+                let names: Vec<&str> = a[5].split(',').filter(|s| *s != "-").collect();
+                let specs: Vec<ColumnSpec> = names.iter().map(|n| ColumnSpec::owned(n.to_string(), ColumnType::Native(NativeType::Int), TableSpec::owned("k".into(), "t".into()))).collect();
+                let ctx = RowSerializationContext::from_specs(&specs);
+                fn go<T: SerializeRow>(v: &T, ctx: &RowSerializationContext) -> String {
+                    let mut buf = Vec::new();
+                    let mut w = RowWriter::new(&mut buf);
+                    match v.serialize(ctx, &mut w) {
+                        Ok(()) => { let n = w.value_count(); format!("OK {} {}", n, if buf.is_empty() { "-".to_string() } else { hex(&buf) }) }
+                        Err(_) => "ERR".to_string(),
+                    }
+                }
+                match a[1] {
+                    "R3" => go(&R3 { a: x, b: y, c: z }, &ctx),
+                    "R3Ordered" => go(&R3Ordered { a: x, b: y, c: z }, &ctx),
+                    "R3RenameSkip" => go(&R3RenameSkip { a: x, b: y, c: z }, &ctx),
+                    _ => "UNKNOWN".to_string(),
+                }
+            }
             // errbody <negotiated rate-limit error code|-> <body hex|->: Error::deserialize of an ERROR body, rendered canonically (texts as written, ids in hex)
             "errbody" => {
                 use scylla_cql_core::frame::protocol_features::ProtocolFeatures;
